@@ -9,9 +9,9 @@ use crate::util::*;
 pub struct C13;
 
 const CAUSES_DEC: [&str; 15] = ["bad-args", "missing-input", "missing-keyring", "malformed-keyring", "keyring-not-utf8", "unknown-name", "no-private-key", "wrong-password", "unset-password", "wrong-magic", "corrupt-header", "corrupt-chunk0", "truncated-chunk0", "truncated-header", "same-file"];
-const CAUSES_ENC: [&str; 10] = ["bad-args", "missing-input", "missing-keyring", "malformed-keyring", "unknown-recipient", "unknown-sender", "no-private-key", "wrong-password", "unset-password", "refused-key-exchange"];
-const CAUSES_PDEC: [&str; 8] = ["bad-args", "missing-input", "wrong-password", "unset-password", "wrong-magic", "corrupt-chunk0", "truncated-chunk0", "truncated-header"];
-const CAUSES_PENC: [&str; 3] = ["bad-args", "missing-input", "unset-password"];
+const CAUSES_ENC: [&str; 11] = ["same-file", "bad-args", "missing-input", "missing-keyring", "malformed-keyring", "unknown-recipient", "unknown-sender", "no-private-key", "wrong-password", "unset-password", "refused-key-exchange"];
+const CAUSES_PDEC: [&str; 9] = ["same-file", "bad-args", "missing-input", "wrong-password", "unset-password", "wrong-magic", "corrupt-chunk0", "truncated-chunk0", "truncated-header"];
+const CAUSES_PENC: [&str; 4] = ["same-file", "bad-args", "missing-input", "unset-password"];
 const CAUSES_GEN: [&str; 3] = ["bad-args", "empty-name", "unset-password"];
 
 impl Prop for C13 {
